@@ -494,9 +494,10 @@ var explains = map[string]map[string]bool{
 	"union-member-not-validated":                        {"leaked": true, "accepted": true},
 	"body-is-union":                                     {"rejected:*": true, "misnamed:*": true, "mismatch": true},
 	"multipart-body-not-validated":                      {"leaked": true},
+	"reference-inherits-type-declared-later":            {"mismatch": true},
 }
 
-var tagOrder = []string{"doc:catch-all-path-spans-segments", "doc:error-media-type", "doc:set-cookie-header-schema", "doc:header-mapped-attribute-in-body-schema", "doc:viewed-result-requires-attribute-outside-view", "doc:responses-sharing-status", "schema:map-key-elem-validation-not-documented", "schema:non-string-key-map-is-free-form", "schema:null-body", "schema:request-body-documented-required", "schema:map-length-not-documented", "schema:bytes-length-on-base64-text", "recursive-result-type", "tagged-response-header-absent", "required-object-outside-view", "both-exclusive-bounds", "required-cookie", "required-query-map-absent", "body-attr-absent", "body-is-union", "path-value-with-slash", "header-array-multi", "absent-collection-minlen", "union-usertype-value-design-names", "union-member-not-validated", "multipart-body-not-validated"}
+var tagOrder = []string{"doc:catch-all-path-spans-segments", "doc:error-media-type", "doc:set-cookie-header-schema", "doc:header-mapped-attribute-in-body-schema", "doc:viewed-result-requires-attribute-outside-view", "doc:responses-sharing-status", "schema:map-key-elem-validation-not-documented", "schema:non-string-key-map-is-free-form", "schema:null-body", "schema:request-body-documented-required", "schema:map-length-not-documented", "schema:bytes-length-on-base64-text", "recursive-result-type", "tagged-response-header-absent", "required-object-outside-view", "both-exclusive-bounds", "required-cookie", "required-query-map-absent", "body-attr-absent", "body-is-union", "path-value-with-slash", "header-array-multi", "absent-collection-minlen", "union-usertype-value-design-names", "union-member-not-validated", "multipart-body-not-validated", "reference-inherits-type-declared-later"}
 
 // mkKey builds a violation key. class is the coarse finding class ("rejected:<name>", "leaked",
 // "misnamed:<name>", "refused:<name>", "accepted", "panic", "mismatch:..."). When the input belongs
